@@ -65,6 +65,22 @@ def model_check(out, module, cfg, expect_violation=False, timeout=3000):
     return r
 
 
+class RawScript:
+    """A script for one of the small harnesses (sl, hash, fwd, ...): opaque text whose first line is
+    'S <id> ...' and last line 'E'."""
+    def __init__(self, sid, body_lines, header_extra=""):
+        self.sid = sid
+        self.bindings = [[header_extra or "-"]]
+        self.header_extra = header_extra
+        self.lines = body_lines
+
+    def text(self):
+        return "S %s %s\n" % (self.sid, self.header_extra) + "\n".join(self.lines) + "\nE\n"
+
+    def rerun_text(self, bindings):
+        return self.text()
+
+
 class ModelViolation(Exception):
     def __init__(self, module, cfg, text):
         Exception.__init__(self, "%s/%s" % (module, cfg))
@@ -162,9 +178,13 @@ def execute_and_validate(pid, exe, script_objs, out, tag, trace_cfg, trace_modul
             continue
         if sc is not None:
             # re-run before reporting: same script, only the bindings that were rejected
-            single = S.Script(sc.sid, [b.split("+") for b in rej.bindings] or sc.bindings)
-            single.lines = sc.lines
-            sp2, tp2 = run_dyn(exe, single.text(), tag + ".rerun")
+            if hasattr(sc, "rerun_text"):
+                rtext = sc.rerun_text(rej.bindings)
+            else:
+                single = S.Script(sc.sid, [b.split("+") for b in rej.bindings] or sc.bindings)
+                single.lines = sc.lines
+                rtext = single.text()
+            sp2, tp2 = run_dyn(exe, rtext, tag + ".rerun")
             _, rejs2 = C.validate_trace(trace_module, trace_cfg, tp2, parts=1)
             confirmed = bool(rejs2)
             if confirmed:
